@@ -371,6 +371,8 @@ def replay_behaviour(beh, cfg, tables, tid, N, seed):
             # wires whose initial tensor is still directly the output leg (see KF-C07-3)
             if k == "uni":
                 fields["bare"] = _bare_wires(o.accepted, N)
+            if k in ("amp", "marg"):
+                fields["zero"] = _is_zero_value(o, q)
             try:
                 v = o.query(q, rng_seed=seed + seq[0])
                 vok, val = _snap_value(k, v, cfg.tol, len(o.accepted))
@@ -413,6 +415,23 @@ def _hflags(gates, o=None):
     return {"cp": bool(o is not None and o.cp), "ctl": any(g["c"] for g in gates),
             "ctliden": any(g["c"] and g["name"] == "IDEN" for g in gates),
             "swap": any(g["name"] == "SWAP" and not g["c"] for g in gates)}
+
+
+def _is_zero_value(o, q):
+    """is the exact value of an amplitude / marginal query identically zero?  (numpy on the gates' own arrays;
+    used only to key the known finding KF-C07-8, never for a verdict)"""
+    try:
+        gs = []
+        for g in o.accepted:
+            if "ang" in g or "U" in g:
+                gs.append(g)
+            else:
+                U = o.matrix_of(g)
+                gs.append(dict(g, name="RAW", U=U) if U is not None else dict(g, ang=_angles(g["p"])))
+        ref = np_state(gs, o.N)
+        return bool(np.sum(np.abs(np_query(q, ref, gs, o.N))) < 1e-12)
+    except Exception:  # noqa
+        return False
 
 
 def _bare_wires(gates, N):
@@ -690,8 +709,8 @@ def random_walk(seed, tid, cfgs, N, length, thorough):
                 r = dict(base, ev="rel", exc="", dq=0, h=_hflags(o.accepted, o), **_qfields(q))
                 if q["kind"] == "uni":
                     r["bare"] = _bare_wires(o.accepted, N)
-                if q["kind"] == "marg":
-                    r["zerocond"] = bool(np.sum(np.abs(np_query(q, ref, o.accepted, N))) < 1e-12)
+                if q["kind"] in ("amp", "marg"):
+                    r["zero"] = bool(np.sum(np.abs(np_query(q, ref, o.accepted, N))) < 1e-12)
                 if q["kind"] == "dense" and q["rev"] and cfg.edges is not None:
                     continue
                 if q["kind"] == "expec" and cfg.edges is not None and len(q["where"]) == 2 and abs(q["where"][0] - q["where"][1]) != 1:
@@ -783,8 +802,8 @@ def random_walk(seed, tid, cfgs, N, length, thorough):
             r = dict(base, ev="stale", exc="", dq=0, dqref=0, h=_hflags(o.accepted, o), **_qfields(q))
             if q["kind"] == "uni":
                 r["bare"] = _bare_wires(o.accepted, N)
-            if q["kind"] == "marg":
-                r["zerocond"] = bool(np.sum(np.abs(np_query(q, ref, o.accepted, N))) < 1e-12)
+            if q["kind"] in ("amp", "marg"):
+                r["zero"] = bool(np.sum(np.abs(np_query(q, ref, o.accepted, N))) < 1e-12)
             try:
                 tol = 1e-5 if (q["kind"] == "marg" and cfg.cls in ("Circuit", "CircuitDense")) else cfg.rtol
                 v1 = np.asarray(o.query(q))
@@ -897,7 +916,7 @@ def run(ctx):
         model_run(ctx, "MC_C07", "MC_thorough.cfg", "exact Circuit N=2 depth 4", EX, w)
         model_run(ctx, "MC_C07", "MC_thorough3.cfg", "exact Circuit N=3 depth 3", EX + ("reject",), w)
         model_run(ctx, "MC_C07", "MC_thorough_perm.cfg", "CircuitPermMPS swap+split N=3 depth 4", PM, w)
-        model_run(ctx, "MC_C07", "MC_thorough_permauto.cfg", "CircuitPermMPS auto-mps N=3 depth 4", PM, w)
+        model_run(ctx, "MC_C07", "MC_thorough_permauto.cfg", "CircuitPermMPS auto-mps N=3 depth 3", PM, w)
     must_fail(ctx, "MC_dev_permswap.cfg", "RejectClean", "KF-C07-1: SWAP on CircuitPermMPS raises after the permutation was updated")
     must_fail(ctx, "MC_dev_upd.cfg", "RejectClean", "KF-C07-4: update_params_from raises half-way on a circuit holding SWAP / IDEN / a raw gate")
     if not quick:
@@ -909,7 +928,7 @@ def run(ctx):
     # 2. S->C: behaviours simulated by TLC, replayed on every class configuration
     from ..ctx import MachineryError
 
-    nbeh = 8 if quick else 160
+    nbeh = 8 if quick else 120
     sim = T.run_tlc("MC_C07sim", "MC_sim.cfg", ctx.spec_dir, workers=1, coverage=False, simulate="num=%d" % nbeh,
                     depth=80, seed=11 + ctx.seed, scratch=ctx.scratch, timeout=1200)
     vals = T.parse_printed_json(sim.output)
@@ -954,7 +973,7 @@ def run(ctx):
     # 3. C->S: random histories with random angles on every class, relational records
     urecs = gate_unitarity(rng, 3 if quick else 25)
     wrecs = []
-    nw = 10 if quick else 150
+    nw = 10 if quick else 110
     for k in range(nw):
         N = [2, 3, 3, 4, 3, 5][k % 6] if not quick else [3, 2, 4, 3][k % 4]
         sub = cfgs if not quick else [c for i, c in enumerate(cfgs) if c.cls == "Circuit" and c.name == "default" or (i + k) % 3 == 0]
